@@ -691,7 +691,7 @@ func (g *G) Stmt(nest int) []*m.N {
 		body := strings.ReplaceAll(g.Text(), "#}", "# }")
 		return []*m.N{{K: "comment", S: " " + body + " "}}
 	case "verbatim":
-		return []*m.N{{K: "verbatim", S: g.verbatimBody()}}
+		return []*m.N{{K: "verbatim", S: g.verbatimBody(), TrimI: g.intn("vbtrim", 0, 3) == 0}}
 	case "do":
 		return []*m.N{{K: "do", X: m.ECall("id", g.Printable(1))}}
 	case "if":
